@@ -160,3 +160,15 @@ Proof.
   intros (A & B & C & D & E & F & G & H & I). unfold loc_ok. repeat (split; [assumption|]).
   split; [apply altitude_roundtrip, E|]. repeat (split; [assumption|]). exact I.
 Qed.
+
+(* a LOC whose sizes are wire values (base * 10^exponent cm) comes back exactly *)
+Definition is_wire_size (x : dbl) : Prop := exists b e, 0 <= b <= 9 /\ 0 <= e <= 9 /\ x = wire_size b e.
+
+Lemma loc_expect_wire la lo alt sz hp vp : is_wire_size sz -> is_wire_size hp -> is_wire_size vp ->
+  loc_expect la lo alt sz hp vp = VLoc la lo alt sz hp vp.
+Proof.
+  intros (b1 & e1 & B1 & E1 & ->) (b2 & e2 & B2 & E2 & ->) (b3 & e3 & B3 & E3 & ->). unfold loc_expect.
+  destruct (loc_sizes_default _ _ _); [reflexivity|]. unfold norm_dbl.
+  destruct (wire_size_roundtrip b1 e1 B1 E1) as [-> _]. destruct (wire_size_roundtrip b2 e2 B2 E2) as [-> _].
+  destruct (wire_size_roundtrip b3 e3 B3 E3) as [-> _]. reflexivity.
+Qed.
